@@ -102,6 +102,8 @@ class C03(Scenario):
             weights = [specmod.enc_float(kn.pick(specmod.ODD_WEIGHTS)) if kn.chance(0.04) else kn.pick(specmod.POS_WEIGHTS + [0.0, 0.0]) for _ in recs]
         else:
             weights = "one"
+        if isinstance(weights, list) and weights and kn.chance(0.06):
+            weights[kn.randrange(len(weights))] = "inf"  # one row of infinite weight (float("inf") reads it back)
         s = rng.fork("schedule")
         nb = s.randint(1, 5)
         cuts = sorted(s.randint(0, n) for _ in range(nb - 1))
